@@ -331,14 +331,14 @@ package transport
 // (the pool forgets closed connections without closing them), and available while wire IDs remain.
 //@ func (c *pipelineConn) Status() (s connpool.ConnStatus)
 //@   props C18 C05
-//@   requires c != nil
+//@   requires c != nil && 0 <= c.nextQid && c.nextQid <= 65536 && 0 <= c.reserved && c.reserved <= 65536
 //@   modifies nothing
 //@   ensures [C18:closed-only-when-torn-down] s.Closed == c.closed
 //@   ensures [C05:available-while-ids-remain] s.Available == (c.nextQid + c.reserved <= 65535)
 
 //@ func (c *pipelineConn) Reserve()
 //@   props C05
-//@   requires c != nil
+//@   requires c != nil && 0 <= c.nextQid && c.nextQid <= 65536 && 0 <= c.reserved && c.reserved <= 65536
 //@   modifies c.reserved
 //@   ensures [C05:reservation-bounded] c.reserved == (old(c.nextQid) + old(c.reserved) < 65535 ? old(c.reserved) + 1 : old(c.reserved)) && c.nextQid == old(c.nextQid)
 
